@@ -368,6 +368,11 @@ func (c *clientHello) parseExtensions() error {
 			//                   Empty;
 			//           };
 			//        } ECHClientHello;
+			// RFC 8446 Section 4.2: there must not be more than one
+			// extension of the same type. marshalAAD relies on it.
+			if c.echExt != nil {
+				return fmt.Errorf("%w: duplicate encrypted_client_hello extension", ErrIllegalParameter)
+			}
 			c.echExt = &echExt{}
 
 			if !data.ReadUint8(&c.echExt.Type) { // type
